@@ -132,8 +132,8 @@ def grid_cases(draw):
         case["spacing_form"] = draw(st.sampled_from(["scalar", "list1"]))
     case["meshgrid"] = draw(st.booleans())
     if case["meshgrid"]:
-        case["extra"] = draw(st.one_of(st.none(), gen.finite(-1e4, 1e4),
-                                       st.lists(gen.finite(-1e4, 1e4), min_size=1, max_size=3)))
+        case["extra"] = draw(st.one_of(st.none(), gen.finite(-1e4, 1e4), st.sampled_from([0.0, 0.0, 1.0, -1.0]),
+                                       st.lists(st.one_of(gen.finite(-1e4, 1e4), st.just(0.0)), min_size=1, max_size=3)))
     else:
         case["extra"] = None
     return case
@@ -242,7 +242,7 @@ def profile_cases(draw):
     else:
         p2 = [p1[0] + draw(gen.finite(-1e6, 1e6)), p1[1] + draw(gen.finite(-1e6, 1e6))]
     return dict(p1=p1, p2=p2, size=draw(st.integers(1, 120)), kind=kind,
-                extra=draw(st.one_of(st.none(), gen.finite(-100, 100), st.lists(gen.finite(-100, 100), min_size=1, max_size=2))))
+                extra=draw(st.one_of(st.none(), gen.finite(-100, 100), st.just(0.0), st.lists(st.one_of(gen.finite(-100, 100), st.just(0.0)), min_size=1, max_size=2))))
 
 
 def check_profile(case, ctx):
